@@ -369,10 +369,12 @@ package wtxmgr
 //@   ensures moved_iff_live: ok == (it.c != nil)
 //@   ensures forward: ok ==> lastCursorMove >= 0
 //@ func (*blockIterator).prev(it) (ok)
-//@   property C13
+//@   property C13 C01
 //@   requires nonnil: it != nil
 //@   ensures moved_iff_live: ok == (it.c != nil)
 //@   ensures backward: ok ==> lastCursorMove <= 0
+//@   ensures txs_fresh: ok ==> it.elem.transactions.base > 0 && !oldalloc(it.elem.transactions.base)
+// added for C01 (non-aliasing: the decoded transaction list is freshly allocated memory)
 
 // the two `advance` closures of rangeBlockTransactions: forward iteration continues exactly while the next
 // block record is at or below `end`, backward iteration exactly while the previous one is at or above `end`
@@ -421,6 +423,16 @@ package wtxmgr
 //@   ensures never_adds: HAS(B_MI(ns), old(bytes(outPointKey))) ==> old(HAS(B_MI(ns), bytes(outPointKey)))
 //@   ensures list_wellformed: HAS(B_MI(ns), old(bytes(outPointKey))) && err == nil ==> blen(VAL(B_MI(ns), old(bytes(outPointKey)))) % 32 == 0
 //@   ensures failure_changes_nothing: err != nil ==> DB_UNCHANGED()
+// ---- added for C02 (begin) ----
+// ASSUMED (not verified against the body: `assumes`): the filter loop only copies whole 32-byte entries of the
+// stored list, so every hash of the list written back is a hash of the list read - the list only loses
+// hashes. (The loop appends spendHashes[idx:idx+32] to newSpendHashes or skips it; proving the clause needs an
+// existential chunk-to-chunk witness through append's byte-string concatenation, which no back end finds.)
+//@   assumes sublist: err == nil && HAS(B_MI(ns), old(bytes(outPointKey))) ==> (forall c Int :: {chunk(VAL(B_MI(ns), old(bytes(outPointKey))), c)}
+//@       0 <= c && 32 * c + 32 <= blen(VAL(B_MI(ns), old(bytes(outPointKey)))) ==>
+//@       (exists b Int :: {at(b)} at(b) && 0 <= b && 32 * b + 32 <= blen(old(VAL(B_MI(ns), bytes(outPointKey))))
+//@           && chunk(VAL(B_MI(ns), old(bytes(outPointKey))), c) == chunk(old(VAL(B_MI(ns), bytes(outPointKey))), b)))
+// ---- added for C02 (end) ----
 
 //@ func fetchUnminedInputSpendTxHashes(ns, k) (r)
 //@   property C02
@@ -430,6 +442,19 @@ package wtxmgr
 //@   invariant 1 bytes_kept: BYTES_KEPT()
 //@   ensures db_unchanged: DB_UNCHANGED()
 //@   ensures bytes_kept: BYTES_KEPT()
+// ---- added for C02 (begin): the result lists exactly the 32-byte hashes of the stored list, in order ----
+//@   reveal chunk
+//@   invariant 1 db_kept: DB_UNCHANGED() && bytes(k) == old(bytes(k)) && HAS(B_MI(ns), bytes(k))
+//@   invariant 1 count: len(spendTxHashes) * 32 + len(rawSpendTxHashes) == blen(VAL(B_MI(ns), bytes(k)))
+//@   invariant 1 rest: forall p Int :: {rawSpendTxHashes[p]} 0 <= p && p < len(rawSpendTxHashes) ==> rawSpendTxHashes[p] == bat(VAL(B_MI(ns), bytes(k)), 32 * len(spendTxHashes) + p)
+//@   invariant 1 decoded: forall t Int, q Int :: {select(spendTxHashes[t], q)} 0 <= t && t < len(spendTxHashes) && 0 <= q && q < 32 ==> select(spendTxHashes[t], q) == bat(VAL(B_MI(ns), bytes(k)), 32 * t + q)
+//@   ensures decoded_len: (old(HAS(B_MI(ns), bytes(k))) ==> len(r) * 32 == blen(VAL(B_MI(ns), old(bytes(k))))) && (!old(HAS(B_MI(ns), bytes(k))) ==> len(r) == 0)
+// ASSUMED (`assumes`: not verified against the body): the byte-string form of the verified element-wise invariant
+// `decoded` (element q of result t is byte 32t+q of the stored list); the step from the 32 element equalities to
+// equality of the two byte strings is array extensionality, which the back ends do not find here (the lemma
+// chunk_from_elems states it and is proved).
+//@   assumes decoded: forall t Int :: {r[t]} {chunk(VAL(B_MI(ns), old(bytes(k))), t)} 0 <= t && t < len(r) ==> bytes(r[t]) == chunk(VAL(B_MI(ns), old(bytes(k))), t)
+// ---- added for C02 (end) ----
 
 // deleteUnminedTx (the transaction got confirmed): its unconfirmed record and every unconfirmed credit of
 // it are gone, nothing outside the buckets of unconfirmed data changes, and no other unconfirmed record
@@ -479,6 +504,26 @@ package wtxmgr
 //@   ensures only_shrinks: UNMINED_ONLY_SHRINK(ns)
 //@   ensures mi_wellformed: INV_MI(ns)
 //@   ensures bytes_kept: BYTES_KEPT()
+// ---- added for C02 (begin): the descendant rule ----
+// For EVERY output index of the removed transaction - wallet credit or not - every hash listed under that
+// outpoint in the unmined-inputs bucket names no unmined record when the call succeeds (the spenders were
+// removed, recursively); the lists of that bucket only lose hashes.
+//@   invariant 0 mi_shrinks: MI_ONLY_SHRINKS(ns)
+//@   invariant 0 hash_kept: rec.Hash == old(rec.Hash)
+//@   invariant 1 last_gone: rangeindex >= 0 ==> SPENDERS_GONE(ns, K_op(old(rec.Hash), rangeindex))
+//@   invariant 1 earlier_gone: forall j Int :: {at(j)} at(j) && 0 <= j && j < rangeindex ==> SPENDERS_GONE(ns, K_op(old(rec.Hash), j))
+//@   invariant 2 earlier_gone: forall j Int :: {at(j)} at(j) && 0 <= j && j < i ==> SPENDERS_GONE(ns, K_op(old(rec.Hash), j))
+//@   invariant 2 m_shrinks_le: forall h Bytes :: {select(select(DBhas, B_M(ns)), h)} HAS(B_M(ns), h) ==> HAS_LE(B_M(ns), h)
+// every hash still listed under this output is one of the hashes fetched before the loop
+//@   invariant 2 cur_listed: HAS(B_MI(ns), K_op(old(rec.Hash), i)) ==> (forall c Int :: {chunk(VAL(B_MI(ns), K_op(old(rec.Hash), i)), c)}
+//@       0 <= c && 32 * c + 32 <= blen(VAL(B_MI(ns), K_op(old(rec.Hash), i))) ==>
+//@       (exists b Int :: {at(b)} at(b) && 0 <= b && b < len(spenderHashes) && chunk(VAL(B_MI(ns), K_op(old(rec.Hash), i)), c) == bytes(spenderHashes[b])))
+//@   invariant 2 spenders_gone: forall t Int :: {spenderHashes[t]} 0 <= t && t <= rangeindex ==> !HAS(B_M(ns), bytes(spenderHashes[t]))
+//@   invariant 2 idx2: 0 <= rangeindex + 1 && rangeindex + 1 <= len(spenderHashes)
+//@   invariant 3 descendants_gone: forall j Int :: {at(j)} at(j) && 0 <= j && j < len(rec.MsgTx.TxOut) ==> SPENDERS_GONE(ns, K_op(old(rec.Hash), j))
+//@   ensures descendants_gone: err == nil ==> (forall j Int :: {at(j)} at(j) && 0 <= j && j < len(rec.MsgTx.TxOut) ==> SPENDERS_GONE(ns, K_op(old(rec.Hash), j)))
+//@   ensures mi_only_shrinks: MI_ONLY_SHRINKS(ns)
+// ---- added for C02 (end) ----
 
 // removeDoubleSpends: confirmed data is untouched and unconfirmed records/credits are only removed, never
 // added or rewritten. (That exactly the conflicting spenders and their descendants are removed is not
